@@ -1220,6 +1220,117 @@ def check_clean_packages(ctx, n, tag, rebind=False):
             continue
         ctx.count("packages_compared" + ("_rebind" if rebind else ""))
         compare_package(ctx, g, files, info, res)
+        if not rebind and ctx.rng.random() < 0.4:
+            try:
+                check_stub_variant(ctx, g, files, info, d)
+            except Exception:  # noqa: BLE001
+                import traceback
+                ctx.property_failure({"root": g.root, "files": files, "stub_variant": True},
+                                     {"griffe raised while loading/resolving the stub-merged package": traceback.format_exc()[-1200:]})
+
+
+# --- stub-merged trees: the module text moves to a sibling .pyi, the .py keeps a part of it (stub-only classes / functions / imports)
+def check_stub_variant(ctx, g, files, info, d):
+    """The package just compared with CPython is the reference (its module text is the stub's).  Variant: for some modules the
+    whole text becomes `mod.pyi` and `mod.py` keeps only some of its top-level statements, so that classes, functions, attributes
+    and imports exist in the stubs only.  Every identifier of every expression written in the stubs (all expressions of stub-only
+    objects, the annotations merged into objects defined on both sides) must get the path it has in the reference tree: the scope
+    of a stubs file is that file's module, wherever the merge moves its objects."""
+    import griffe
+    rng = ctx.rng
+    vfiles, dropped = dict(files), {}
+    for m in g.all_mods:
+        if rng.random() < (0.3 if m.is_init else 0.7):
+            src = files[m.relfile]
+            tree = ast.parse(src)
+            lines = src.split("\n")
+            keep, gone = [], set()
+            for node in tree.body:
+                first = min([node.lineno] + [x.lineno for x in getattr(node, "decorator_list", [])])
+                seg = lines[first - 1:node.end_lineno]
+                is_future = isinstance(node, ast.ImportFrom) and node.module == "__future__"
+                pdrop = 0.0 if is_future else 0.5 if isinstance(node, (ast.Import, ast.ImportFrom, ast.ClassDef)) else 0.3
+                if rng.random() < pdrop:
+                    for sub in ast.walk(node) if isinstance(node, ast.Try) else [node]:
+                        if isinstance(sub, (ast.ClassDef, ast.FunctionDef)):
+                            gone.add(sub.name)
+                        elif isinstance(sub, (ast.Assign, ast.AnnAssign)):
+                            for t in (sub.targets if isinstance(sub, ast.Assign) else [sub.target]):
+                                if isinstance(t, ast.Name):
+                                    gone.add(t.id)
+                    if isinstance(node, ast.Try):      # only what the try binds at the top level of the module
+                        gone -= {x.name for c in ast.walk(node) if isinstance(c, ast.ClassDef) for x in ast.walk(c) if x is not c and isinstance(x, (ast.ClassDef, ast.FunctionDef))}
+                    continue
+                keep += seg
+            vfiles[m.relfile] = "\n".join(keep) + "\n"
+            vfiles[m.relfile + "i"] = src
+            dropped[m.dotted] = gone
+    if not dropped:
+        return
+    vd = ctx.scratch / (g.root + "_stubs")
+    for rel, text in vfiles.items():
+        f = vd / g.root / rel
+        f.parent.mkdir(parents=True, exist_ok=True)
+        f.write_text(text)
+    loader, pkg = load_package(g.root, vd)
+    mcoll, rcoll = loader.modules_collection, info["coll"]
+    case = {"root": g.root, "files": vfiles, "stub_variant": True}
+    ctx.count("stub_variants")
+
+    def idents(e):
+        occ = []
+        xlive(e, occ)
+        return [[n.name, n.canonical_path] for n in occ]
+
+    for m in g.all_mods:
+        if m.dotted not in dropped:
+            continue
+        for robj in all_objects(rcoll[m.dotted]):
+            if robj.is_module:
+                continue
+            top = robj.path[len(m.dotted) + 1:].split(".")[0]
+            stub_only = top in dropped[m.dotted]
+            try:
+                mobj = mcoll[robj.path]
+            except KeyError:
+                if CARRIER_RE.match(robj.name) and robj.parent.kind.value == "class" and robj.name[0] in "ab":
+                    continue       # instance attribute of a class whose __init__ exists in the stubs only: not created from stubs
+                ctx.property_failure({**case, "object": robj.path}, {"stub-merged tree lacks an object declared in the stubs": robj.path})
+                continue
+            if mobj.is_alias or mobj.kind is not robj.kind:
+                ctx.observe("stub_object", "kind-differs")
+                continue
+            k = robj.kind.value
+            if stub_only:
+                pairs = list(zip(object_exprs(robj), object_exprs(mobj)))
+            elif k == "attribute":
+                pairs = [(robj.annotation, mobj.annotation)]
+            elif k == "function":
+                pairs = [(robj.returns, mobj.returns)] + [(a.annotation, b.annotation) for a, b in zip(robj.parameters, mobj.parameters)]
+            else:
+                pairs = []
+            for re_, me in pairs:
+                if re_ is None or me is None or isinstance(re_, str) or isinstance(me, str):
+                    continue
+                want, got = idents(re_), idents(me)
+                ctx.case({"root": g.root, "stub": robj.path, "expr": str(re_), "src": files_digest(vfiles)}, any(a != b for a, b in want))
+                ctx.observe("stub_object", ("stub-only:" if stub_only else "both:") + k)
+                if want != got:
+                    # C04-F7: a submodule that __init__.pyi imports from its own package is unknown to the stubs module
+                    subs = g.submodule_names(m)
+                    st = info["scopes"][m.dotted]["stmts"]
+                    diff = [(a, b) for a, b in zip(want, got) if a != b]
+                    f7 = (m.is_init and len(want) == len(got) and diff and all(
+                        a[0] == b[0] and a[0] in subs and b[1] == a[0] and a[1] == m.dotted + "." + a[0]
+                        and any(x[0] == "from" and _binds(x) == a[0] for x in st) and not any(x[0] == "import" and _binds(x) == a[0] for x in st)
+                        for a, b in diff))
+                    ctx.observe("stub_mismatch", "C04-F7" if f7 else "differs")
+                    ctx.property_failure({**case, "object": robj.path, "stub_only": stub_only},
+                                         {"expression": str(re_), "griffe_on_stub_merged_tree": got,
+                                          "reference (module text = stub text, compared with CPython above)": want},
+                                         finding="C04-F7" if f7 else None)
+                else:
+                    ctx.observe("stub_mismatch", "none")
 
 
 def griffe_side(ctx, g, d, files):
@@ -2051,24 +2162,33 @@ def witnesses(ctx):
         w = f["witness"]
         repaired = "repaired_by" in f and v[SWITCH[f["repaired_by"]]]
         try:
-            mod = griffe.visit("m", filepath=None, code=w["source"])
+            if "files" in w:
+                wd = ctx.scratch / ("witness_" + f["id"])
+                for rel, text in w["files"].items():
+                    (wd / rel).parent.mkdir(parents=True, exist_ok=True)
+                    (wd / rel).write_text(text)
+                wl, _ = load_package("pkg", wd)
+                get = lambda q: wl.modules_collection[q]
+            else:
+                mod = griffe.visit("m", filepath=None, code=w["source"])
+                get = lambda q: mod[q[2:]]
             got = []
             for path, attr, name in w["lookups"]:
-                expr = getattr(mod[path[2:]], attr)
+                expr = getattr(get(path), attr)
                 occ = []
                 xlive(expr, occ)
                 got += [n.canonical_path for n in occ if n.name == name]
             if repaired:
                 ctx.case({"witness": f["id"], "repaired": True}, True)
                 if not got or any(x != w["repaired"] for x in got):
-                    ctx.property_failure({"witness": f["id"], "source": w["source"]},
+                    ctx.property_failure({"witness": f["id"], "source": w.get("source")},
                                          {"griffe": got, "expected": w["repaired"], "what": "the tree has the repair (" + f["repaired_by"] + ") but the witness of " + f["id"] + " does not give CPython's answer"})
             else:
                 ctx.witness(f["id"], bool(got) and all(x == w["griffe"] for x in got))
         except Exception:  # noqa: BLE001
             if repaired:
                 import traceback
-                ctx.property_failure({"witness": f["id"], "source": w["source"]}, {"griffe raised": traceback.format_exc()[-600:]})
+                ctx.property_failure({"witness": f["id"], "source": w.get("source")}, {"griffe raised": traceback.format_exc()[-600:]})
             else:
                 ctx.witness(f["id"], False)
 
